@@ -674,6 +674,11 @@ CURATED = [
     ("{[#SP4]1.2[#SP4].3[#SP1r]1.[#TC4]23}.{#SP4=OC[$]C[$]O,#SP1r=[$]OC[$]CO}", True, False),
     ("{[#A].[#A][#B]}.{#A=[$]CC[$],#B=[$]O}", True, False),
     ("{[#X][#Y].[#Y]}.{#X=[>][#P1][#P2][<],#Y=[<][#Q1][#Q2][>]}", False, False),
+    # shared beads (squash operator) at an intermediate level, followed by a further level
+    ("{[#A0][#B0]}.{#A0=[#A1a][#A1b][!],#B0=[!][#A1b][#B1b]}.{#A1a=CC[$],#A1b=[$]CO[$],#B1b=[$]CN}", True, True),
+    ("{[#A0][#B0][#C0]}.{#A0=[#P][#Q][!],#B0=[!][#Q][#R][!],#C0=[!][#R][#S]}.{#P=CC[$],#Q=[$]CO[$],#R=[$]CN[$],#S=[$]CCl}", True, True),
+    ("{[#A0][#B0]}.{#A0=[#X1][#X2][!],#B0=[!][#X2][#X3]}.{#X1=[#a][#b][>],#X2=[<][#c][#d][>],#X3=[<][#e]}", False, True),
+    ("{[#A0][#B0]}.{#A0=[>][#A1a][#A1b][!],#B0=[!][#A1b][#B1b][<]}.{#A1a=[$]CC,#A1b=[$]CO[$],#B1b=[$]CN}", True, True),
 ]
 
 MONOMERS = [("PEO", "[>]COC[<]"), ("PE", "[>]CC[<]"), ("PS", "[>]CC[<]c1ccccc1"), ("PMA", "[>]CC[<]C(=O)OC"),
